@@ -90,7 +90,11 @@ let verdict case impl =
     let string_of_bobs o =
       (if o.bo_events = [] then "-" else String.concat "," (List.map string_of_ev o.bo_events))
       ^ "/" ^ string_of_res o.bo_res ^ "/" ^ hex_of_n o.bo_end in
-    let model () = String.concat " " (List.sort_uniq compare (List.map string_of_bobs (btimed_runs cfg iv targets))) in
+    (* diagnostics only; plain enumeration can be huge when many fibers are ready at one instant *)
+    let model () =
+      if List.length targets > 5 then "<not enumerated>" else
+      try String.concat " " (List.sort_uniq compare (List.map string_of_bobs (btimed_runs cfg iv targets)))
+      with _ -> "<too many>" in
     let bobs_of_string s = match String.split_on_char '/' s with
       | [ev; r; e] ->
         (try Some { bo_events = (if ev = "-" then [] else List.map ev_of_string (split_on ',' ev));
@@ -104,9 +108,9 @@ let verdict case impl =
         then Some ("viol no-return " ^ tok ^ " model=" ^ model ())
         else Some ("diff unreadable " ^ tok)
       | Some o ->
-        (* the property predicate is cheap: it is evaluated on EVERY observed trace *)
-        if not (prop_trace cfg targets o) then Some ("viol trace=" ^ tok ^ " model=" ^ model ())
-        else if baccept cfg iv targets o then None
+        (* C13_probe_guided: = membership in the model's traces; C13_probe_accept_sound: accepted => property *)
+        if baccept_guided cfg iv targets o then None
+        else if not (prop_trace cfg targets o) then Some ("viol trace=" ^ tok ^ " model=" ^ model ())
         else Some ("diff trace=" ^ tok ^ " model=" ^ model ()) in
     let rec first = function
       | [] -> "ok"
